@@ -625,6 +625,74 @@ func propC18(w *World, r *Report) {
 			r.Check(closedBefore, "W4", "writer: on file rotation the current file is closed (flushed) before the next one is opened", w.InstrPos(c), "")
 		}
 	}
+	// ... and the other way round: a file that was closed inside the loop (rotation) is replaced by a newly opened one
+	// before the next frame is written - no path from such a Close comes round to the frame write without passing an
+	// open (a `break` that only leaves the select, an open dropped in a restructuring: frames would go to a closed file)
+	if len(wcalls) > 0 {
+		isOpen := func(in ssa.Instruction) bool {
+			c, ok := in.(*ssa.Call)
+			if !ok || c.Call.StaticCallee() == nil || c.Call.StaticCallee().Signature.Results().Len() < 1 {
+				return false
+			}
+			if typeIs(c.Call.StaticCallee().Signature.Results().At(0).Type(), modPath+"/cmd/thermal-writer", "Builder") {
+				return true
+			}
+			return closesParamBeforeOpening(c)
+		}
+		nRot := 0
+		for _, b := range wr.Blocks {
+			if !inLoop(b) {
+				continue
+			}
+			for i, in := range b.Instrs {
+				cc, ok := in.(*ssa.Call)
+				if !ok {
+					continue
+				}
+				callee := cc.Call.StaticCallee()
+				if callee == nil || callee.Name() != "Close" || len(cc.Call.Args) == 0 || !typeIs(cc.Call.Args[0].Type(), modPath+"/cmd/thermal-writer", "Builder") {
+					continue
+				}
+				nRot++
+				// walk forward from the instruction after the Close
+				reopened := false
+				for _, later := range b.Instrs[i+1:] {
+					if isOpen(later) {
+						reopened = true
+					}
+				}
+				bad := false
+				if !reopened {
+					seen := map[*ssa.BasicBlock]bool{}
+					work := append([]*ssa.BasicBlock{}, b.Succs...)
+					for len(work) > 0 && !bad {
+						x := work[len(work)-1]
+						work = work[:len(work)-1]
+						if seen[x] {
+							continue
+						}
+						seen[x] = true
+						opened := false
+						for _, xi := range x.Instrs {
+							if isOpen(xi) {
+								opened = true
+								break
+							}
+							if xi == ssa.Instruction(wcalls[0]) {
+								bad = true
+								break
+							}
+						}
+						if !opened && !bad {
+							work = append(work, x.Succs...)
+						}
+					}
+				}
+				r.Check(!bad, "W4", "writer: after a rotation Close a new file is opened before the next frame is written", w.InstrPos(cc), "")
+			}
+		}
+		_ = nRot
+	}
 	checkBufferedClose(w, r)
 	checkHeaderSection(w, r)
 	checkRawFileNames(w, r)
